@@ -1,12 +1,12 @@
 package engine
 
 import (
-	"go/types"
 	"fmt"
 	"go/token"
+	"go/types"
+	"golang.org/x/tools/go/ssa"
 	"regexp"
 	"strings"
-	"golang.org/x/tools/go/ssa"
 )
 
 var (
@@ -295,12 +295,13 @@ func runC16Struct(c *Ctx, wl *walkLayers) {
 
 // runC16More: two more necessary conditions of "programmatic rules and functions, documented
 // scope".
-//   C16-UNKNOWN  the rule name is looked up for every (non-empty) rule item, whatever the value
-//                of the field: the lookup is never skipped because the value is empty, so an
-//                unknown name always produces its error clause
-//   C16-API      the exported wrappers hand an unscoped rule set to SetRule WITHOUT an object;
-//                binding it to the type of the value being validated makes nested values of the
-//                same type receive the override too
+//
+//	C16-UNKNOWN  the rule name is looked up for every (non-empty) rule item, whatever the value
+//	             of the field: the lookup is never skipped because the value is empty, so an
+//	             unknown name always produces its error clause
+//	C16-API      the exported wrappers hand an unscoped rule set to SetRule WITHOUT an object;
+//	             binding it to the type of the value being validated makes nested values of the
+//	             same type receive the override too
 func runC16More(c *Ctx) {
 	p := c.P
 	c.Rule("C16-UNKNOWN", "in every walker the lookup of the rule name is not guarded by an emptiness test of the value", 4)
@@ -586,7 +587,6 @@ func runC16Delegate(c *Ctx) {
 	}
 }
 
-
 // isUnscopedField: expr is "v.<field>" for a field of VStruct of type RM (the unscoped rule set
 // kept in a field of its own).
 func isUnscopedField(p *Prog, expr string) bool {
@@ -612,7 +612,6 @@ func isUnscopedField(p *Prog, expr string) bool {
 	}
 	return false
 }
-
 
 // typeScopedEmpty: on this path the rule set registered for the object's own type was found empty
 // (len == 0, !(len > 0), len < 1) or there is no type-scoped table at all.
